@@ -11,3 +11,5 @@ LEVEL_TEXT = "Proof obligations for defaults, applicability, value sets, stored 
 LEVEL_NOTE = "Trusts the pyvc encoding, z3/cvc5, A-INT/A-STR (int(), str.lower uninterpreted), codecs.lookup (runtime registry)."
 TECHNIQUE = "contract-based deductive verification (VCs from the ast of the real functions, z3/cvc5) + bounded spelling sweep"
 UNITS = [D.unit_dataformat_init(), D.unit_set_property(), D.unit_validate(), D.unit_validated_character(), D.unit_character_spellings()]
+from contracts import ranges as R
+UNITS += [R.unit_code_for_string_token()]
